@@ -246,15 +246,30 @@ def structure_flags(text):
     clears = False
     if fpos >= 0:
         clears = re.search(r"(\.|->)\s*path\s*=\s*NULL\s*;", close[fpos:]) is not None
-    # a close that rejects an all-empty slot (fd < 0, no dir, no path)
-    rejects_empty = re.search(r"MUST\s*\([^\n;]*path\s*!=\s*NULL", close) is not None or \
-        re.search(r"if\s*\([^)]*fd\s*<\s*0[^)]*path\s*==\s*NULL[^)]*\)\s*\{?\s*return\s+false", close) is not None
-    def guards(fname):
+    # wasiFileDescriptorGet rejects a slot with no native fd, no DIR and no path
+    get = function_body(text, "wasiFileDescriptorGet")
+    get_rejects = False
+    for m in re.finditer(r"MUST\s*\(", get):
+        j = match_close(get, m.end() - 1)
+        cond = re.sub(r"\s+", "", get[m.end():j])
+        if re.fullmatch(r"wasi\.fds\.fds\[wasiFD\]\.fd>=0\|\|wasi\.fds\.fds\[wasiFD\]\.dir!=NULL\|\|wasi\.fds\.fds\[wasiFD\]\.path!=NULL", cond):
+            # must come before the copy to *result
+            if get.find("*result") > m.start():
+                get_rejects = True
+        elif cond != "wasiFD<wasi.fds.length":
+            raise ExtractFail("wasi.c", f"wasiFileDescriptorGet: unexpected MUST condition `{cond}`")
+    def guard(fname):
+        """errno macro returned when descriptor.path == NULL is tested before the strcpy, else None"""
         body = function_body(text, fname)
         spos = body.find("strcpy(nativePath, descriptor.path)")
         if spos < 0:
             raise ExtractFail("wasi.c", f"{fname}: strcpy(nativePath, descriptor.path) not found")
-        return re.search(r"descriptor\.path\s*==\s*NULL|!\s*descriptor\.path", body[:spos]) is not None
+        m = re.search(r"if\s*\(\s*(?:descriptor\.path\s*==\s*NULL|!\s*descriptor\.path)\s*\)\s*\{(.*?)return\s+(\w+)\s*;", body[:spos], flags=re.S)
+        if m:
+            return m.group(2)
+        if re.search(r"descriptor\.path\s*==\s*NULL|!\s*descriptor\.path", body[:spos]):
+            raise ExtractFail("wasi.c", f"{fname}: NULL-path test of an unexpected shape")
+        return None
     seek = re.search(r"WASI_PREVIEW1_IMPORT\s*\(\s*U32\s*,\s*fd_seek", text)
     if not seek:
         raise ExtractFail("wasi.c", "preview1 fd_seek not found")
@@ -267,7 +282,7 @@ def structure_flags(text):
         if not m:
             raise ExtractFail("wasi.c", f"{fname}: fd < 0 test not found")
         sync_inval[fname] = m.group(1)
-    return clears, rejects_empty, guards("wasiFDReaddir"), guards("wasiFdFdstatGet"), guards("wasiFDFilestatGet"), whence_first, sync_inval
+    return clears, get_rejects, guard("wasiFDReaddir"), guard("wasiFdFdstatGet"), guard("wasiFDFilestatGet"), whence_first, sync_inval
 
 
 def lean_list(items):
@@ -375,16 +390,17 @@ def generate(repo):
                "WASI_FDFLAGS_DSYNC", "WASI_FDFLAGS_NONBLOCK", "WASI_FDFLAGS_RSYNC", "WASI_FDFLAGS_SYNC"):
         w(f"def {nm} : Nat := {eval_const(nm, macros, 'wasi.h')}")
     w("")
-    clears, rej, g_rd, g_fs, g_fl, whence_first, sync_inval = structure_flags(text)
+    clears, get_rejects, g_rd, g_fs, g_fl, whence_first, sync_inval = structure_flags(text)
     b = lambda x: "true" if x else "false"
+    og = lambda x: "none" if x is None else f"some {eval_const(x, macros, 'wasi.h')}"
     w("/-- `wasiFileDescriptorClose` assigns `path = NULL` in the table after `free` -/")
     w(f"def closeClearsPath : Bool := {b(clears)}")
-    w("/-- `wasiFileDescriptorClose` fails for a slot with no fd, no DIR and no path -/")
-    w(f"def closeRejectsEmpty : Bool := {b(rej)}")
-    w("/-- `descriptor.path == NULL` is tested before `strcpy(nativePath, descriptor.path)` -/")
-    w(f"def readdirGuardsNullPath : Bool := {b(g_rd)}")
-    w(f"def fdstatGuardsNullPath : Bool := {b(g_fs)}")
-    w(f"def filestatGuardsNullPath : Bool := {b(g_fl)}")
+    w("/-- `wasiFileDescriptorGet` fails (before copying) for a slot with no native fd, no DIR and no path -/")
+    w(f"def getRejectsClosed : Bool := {b(get_rejects)}")
+    w("/-- the errno returned when `descriptor.path == NULL` is tested before `strcpy(nativePath, descriptor.path)`; `none` = no test -/")
+    w(f"def readdirNullPath : Option Nat := {og(g_rd)}")
+    w(f"def fdstatNullPath : Option Nat := {og(g_fs)}")
+    w(f"def filestatNullPath : Option Nat := {og(g_fl)}")
     w("/-- fd_seek converts (and rejects) whence before looking the descriptor up -/")
     w(f"def seekChecksWhenceFirst : Bool := {b(whence_first)}")
     w(f"/-- fd_datasync / fd_sync on a descriptor with fd < 0 return this -/")
